@@ -303,7 +303,9 @@ def run(ctx) -> None:
         if not lims:
             continue
         n_lim += 1
-        bad = [x for x in walk_local(f.node) if isinstance(x, ast.Compare) and any(isinstance(y, ast.Name) and y.id in lims for y in [x.left] + list(x.comparators)) and not all(isinstance(o, (ast.Is, ast.IsNot)) for o in x.ops)]
+        bad = [x for x in walk_local(f.node) if isinstance(x, ast.Compare) and any(isinstance(z, ast.Name) and z.id in lims for y in [x.left] + list(x.comparators) for z in ast.walk(y)) and not all(isinstance(o, (ast.Is, ast.IsNot)) for o in x.ops)]
+        # ... and the limit the caller gave is never replaced (a re-bound parameter silently changes k for everything below)
+        bad += [x for x in walk_local(f.node) if isinstance(x, (ast.Assign, ast.AugAssign, ast.AnnAssign)) for t in (x.targets if isinstance(x, ast.Assign) else [x.target]) if isinstance(t, ast.Name) and t.id in lims and t.id in f.param_names]
         bad += [t for n_ in walk_local(f.node) if isinstance(n_, (ast.If, ast.While, ast.IfExp)) for t in [n_.test] if isinstance(t, ast.Name) and t.id in lims]
         rep.add("C15.R3", f"{f.qname}:no-path-by-limit-value", not bad, f"{f.module.rel}:{bad[0].lineno if bad else f.lineno}", "the limit is only tested for presence and used to size the limiter" if not bad else f"'{src(bad[0])[:50]}' selects a code path by the value of the limit: the run for that k is not the unlimited run with fewer permits (e.g. a sequential k=1 path where the first failure skips the step's other nodes and their outputs)")
     if n_lim < 3:
